@@ -583,15 +583,15 @@ def run_check(cls: type, tier: str, seed: int) -> int:
             if rc != 0:
                 broken.append(Violation('theorem', 'coqchk rejected the compiled development: ' + out[-800:], found_input=False))
 
-    # 7. search for a concrete failing input when something broke and no oracle failure is at hand
-    if broken and not violations:
+    # 7. search for a concrete failing input when something broke and no (unlisted) oracle failure is at hand
+    known, fixed = load_known_findings(prop)
+    if broken and not [v for v in violations if chk.classify_known(v, known) is None]:
         try:
             violations.extend(chk.search(broken))
         except ImplCrash as e:
             chk.notes.append('search crashed: ' + str(e)[-500:])
 
     # known findings
-    known, fixed = load_known_findings(prop)
     reported: List[Tuple[Violation, Path]] = []
     known_hit: Dict[str, str] = {}
     idx = 0
